@@ -336,8 +336,8 @@ def r4_leaders(ctx, repo):
 class SubCtx:
     """forwards the archive rules of C04 into this property's report under rule R4"""
 
-    def __init__(self, ctx, rule):
-        self.ctx, self.rule = ctx, rule
+    def __init__(self, ctx, rule, prefix="leader archive: "):
+        self.ctx, self.rule, self.prefix = ctx, rule, prefix
         self.extra = ctx.extra
 
     def _k(self, rule, key):
@@ -347,7 +347,7 @@ class SubCtx:
         self.ctx.holds(self.rule, construct, where, detail, self._k(rule, key))
 
     def violated(self, rule, construct, where="", detail="", key="", facts=None):
-        self.ctx.violated(self.rule, construct, where, "leader archive: " + detail, self._k(rule, key), facts)
+        self.ctx.violated(self.rule, construct, where, self.prefix + detail, self._k(rule, key), facts)
 
     def inconclusive(self, rule, construct, where="", detail="", key=""):
         self.ctx.inconclusive(self.rule, construct, where, detail, self._k(rule, key))
